@@ -85,6 +85,7 @@ def gen(rng, index, tier):
     # and where they sit among the valid rows must not matter either
     plan["stale"] = rng.choice([0, 0, 1, 2])
     plan["interp"] = []
+    plan["interp_all_modules"] = tier == "thorough"   # quick: fresh interpreters only for the module with most rows
     if index % every == 3:
         plan["interp"] = [{"hashseed": rng.choice([0, 1, 12345, 4242]), "salt": rng.choice([0, 1, 7, 100, 1001]), "variant": rng.randrange(nv)} for _ in range(rng.choice([2, 3]))]
     return plan
@@ -219,7 +220,7 @@ def execute(plan):
                 rc, out, err, exc = E.run_cli(tail, db, plan["k_stub"], plan["rewriter"], pre)
                 results[m].append(("variant%d" % vi, rc, out, exc))
             for ii, iv in enumerate(plan["interp"]):
-                if iv["variant"] >= len(dbs) or m != busiest:
+                if iv["variant"] >= len(dbs) or (m != busiest and not (plan.get("interp_all_modules") and per_mod.get(m))):
                     continue
                 res = run_interp(root, dbs[iv["variant"]], plan, iv, modname, max(1, len(distinct)))
                 if res.get("exc") and "interpreter phase failed" in res["exc"]:
